@@ -80,7 +80,11 @@ def rule_gate(ctx, res):
         res.sites += len(sites)
         res.check(len(sites) >= floors[what], 'WHO', b.path, '%s: at least %d site(s) found' % (what, floors[what]), detail=str(len(sites)), key='floor:' + what)
         for st in sites:
-            res.check(only_via_edge(b, st.block, edges), 'DOM', b.path, '%s is reached only through the transaction gate' % what, site=st.where, key='gated:' + what)
+            # .. on the CFG (the gate's Some edge dominates the site) and on every enumerated path (the value tested on that
+            # edge really is the result of `remove`: an id is consumed by the answer that passes, whatever phase the search is in)
+            through = [p for p in s.paths if st.block in p.blocks]
+            consumed = bool(through) and all(any(gate_lit(literal(c)) and c[2] in p.blocks and p.blocks.index(c[2]) < p.blocks.index(st.block) for c in p.conds) for p in through)
+            res.check(only_via_edge(b, st.block, edges) and consumed, 'DOM', b.path, '%s is reached only through the transaction gate' % what, site=st.where, key='gated:' + what)
     return b, s, edges
 
 
